@@ -589,6 +589,15 @@ func execOrder(t *transport, sc script, order string) (v *viol, hung bool) {
 
 func main() {
 	r := vk.New("C14", "exploration")
+	// this harness bounds every call of the code under test with its own limits (and confirms
+	// a miss on a dedicated re-run), so the supervisor's stall watchdog only has to see that
+	// the process is alive
+	go func() {
+		for {
+			vk.Beat()
+			time.Sleep(5 * time.Second)
+		}
+	}()
 	lc, ls := 4, 3
 	if !r.Quick() {
 		lc, ls = 5, 4
